@@ -266,6 +266,7 @@ class Facts:
         voc = inline.load_vocabulary()
         vf0 = inline.load_vocabulary_fields()
         self.moved = inline.canonicalise_modules(self.raw, voc, vf0, strip_lt) if voc is not None and self.raw.get("crate") == "regexml" else {}
+        self.degenericised = inline.canonicalise_generics(self.raw, voc, strip_lt) if voc is not None and self.raw.get("crate") == "regexml" else []
         vs = inline.load_vocabulary_sigs()
         self.renamed_fns = inline.canonicalise_renamed_functions(self.raw, vs, strip_lt) if vs is not None and self.raw.get("crate") == "regexml" else {}
         self.memos = inline.desugar_memos(self.raw, strip_lt) if voc is not None else []
